@@ -13,6 +13,7 @@ mapfile -t IDS < <(ls seeded | grep -v '^negative-controls$' | while read -r s; 
   if [ $# -eq 0 ]; then echo "$s"; else for p in "$@"; do case "$s" in "$p"*) echo "$s";; esac; done; fi; done)
 echo "${#IDS[@]} seeded changes on $N lanes"
 mkdir -p target/logs
+rm -f target/logs/lane*.log
 for ((i = 0; i < N; i++)); do
   L=/tmp/lane$i
   mkdir -p "$L/repo" "$L/verif"
@@ -32,7 +33,15 @@ for i in range(n):
     d = "/tmp/lane%d/verif/seeded" % i
     if not os.path.isdir(d):
         continue
-    for sid in sorted(os.listdir(d)):
+    # only what this lane ran itself (its log says so); its copies of the other metas are older than the real ones
+    ran = set()
+    try:
+        for line in open("/verif/target/logs/lane%d.log" % i):
+            if line.split() and line.split()[0] in os.listdir(d):
+                ran.add(line.split()[0])
+    except OSError:
+        pass
+    for sid in sorted(ran):
         lp, rp = os.path.join(d, sid, "meta.json"), os.path.join("/verif/seeded", sid, "meta.json")
         if not (os.path.exists(lp) and os.path.exists(rp)):
             continue
@@ -43,7 +52,8 @@ for i in range(n):
                 json.dump(rm, f, indent=1, ensure_ascii=False)
                 f.write("\n")
 EOF
-cat target/logs/lane*.log | sort > target/logs/run_seeded_lanes.log
+cat target/logs/lane*.log | sort > "target/logs/run_seeded_lanes.$(date +%H%M).log"
+cp "target/logs/run_seeded_lanes.$(date +%H%M).log" target/logs/run_seeded_lanes.log
 for ((i = 0; i < N; i++)); do rm -rf "/tmp/lane$i"; done
 grep -c DETECTED target/logs/run_seeded_lanes.log
 grep -v DETECTED target/logs/run_seeded_lanes.log
